@@ -54,7 +54,7 @@ func (h *vhHB) tick() int {
 
 // C16: the heartbeat of a local entity (sequential histories; ticks delivered by the harness).
 func VH_c16_heartbeat() {
-	scen := []string{"ticks", "restart", "stop", "remove-entity", "stop-start"}
+	scen := []string{"ticks", "restart", "stop", "remove-entity", "stop-start", "restart-twice-at-once"}
 	cs := verifrt.ShardChoice("case", len(vhHBTimeouts)*len(scen))
 	timeout, sc := vhHBTimeouts[cs/len(scen)], scen[cs%len(scen)]
 	verifrt.Scenario(fmt.Sprintf("%s/timeout=%v", sc, timeout))
@@ -82,6 +82,14 @@ func VH_c16_heartbeat() {
 	refresh("each-tick-refreshes-and-notifies-exactly-once", 1)
 	switch sc {
 	case "restart":
+		_ = hm.StartHeartbeat()
+		verifrt.WaitIdle()
+		verifrt.Assert("still-running-after-restart", hm.IsHeartbeatRunning())
+		refresh("restart-leaves-exactly-one-heartbeat-stream", 1)
+		refresh("restart-leaves-exactly-one-heartbeat-stream", 1)
+	case "restart-twice-at-once":
+		// the second start arrives before the goroutine of the first has reached its select
+		_ = hm.StartHeartbeat()
 		_ = hm.StartHeartbeat()
 		verifrt.WaitIdle()
 		verifrt.Assert("still-running-after-restart", hm.IsHeartbeatRunning())
@@ -115,13 +123,29 @@ func VH_c16_heartbeat() {
 
 // start and stop from two goroutines at once (pre-emption at lock acquisitions and channel operations)
 func VH_c16_race() {
-	scen := []string{"stop-stop", "start-stop", "start-start"}
+	scen := []string{"stop-stop", "start-stop", "start-start", "restart-during-refresh"}
 	si := verifrt.ShardChoice("case", len(scen))
 	verifrt.Scenario(scen[si])
 	h := vhHeartbeatWorld(4 * time.Second)
 	hm := h.e.HeartbeatManager()
 	h.f.AddFunctionType(model.FunctionTypeDeviceDiagnosisHeartbeatData, true, false)
 	verifrt.WaitIdle()
+	if scen[si] == "restart-during-refresh" {
+		// a tick is due and a restart arrives while the refresh it causes is in flight
+		verifrt.Tick()
+		verifrt.Go(func() { _ = hm.StartHeartbeat() })
+		verifrt.PreemptOn()
+		verifrt.WaitIdle()
+		verifrt.PreemptOff()
+		verifrt.Reach("both-done")
+		verifrt.Assert("still-running-after-restart", hm.IsHeartbeatRunning())
+		verifrt.Assert("restart-leaves-exactly-one-heartbeat-stream", h.tick() == 1)
+		verifrt.Assert("restart-leaves-exactly-one-heartbeat-stream", h.tick() == 1)
+		hm.StopHeartbeat()
+		verifrt.WaitIdle()
+		verifrt.Assert("after-a-final-stop-no-stream-keeps-refreshing", h.tick()+h.tick() <= 1 && !hm.IsHeartbeatRunning())
+		return
+	}
 	ops := [][2]int{{0, 0}, {1, 0}, {1, 1}}[si]
 	for _, op := range ops {
 		op := op
